@@ -354,3 +354,117 @@ def sh_is(s, acc, d):
     """s is acc sharps (acc >= 0) or -acc flats followed by the digit of d"""
     return (len(s) == abs(acc) + 1 and s[len(s) - 1] == digit_char(d)
             and (cnt_sharp(s, 0, len(s) - 1) == acc if acc >= 0 else cnt_flat(s, 0, len(s) - 1) == -acc))
+
+
+# ------------------------------------------------------------------ chord formulas (spec's own table)
+# each note after the root as (letters above the root, semitones above the root)
+_MAJ, _MIN, _DIM, _AUG = [(2, 4), (4, 7)], [(2, 3), (4, 7)], [(2, 3), (4, 6)], [(2, 4), (4, 8)]
+_SUS4, _SUS2 = [(3, 5), (4, 7)], [(1, 2), (4, 7)]
+_m7, _M7, _b7 = (6, 10), (6, 11), (6, 10)
+_9, _b9, _s9, _11, _s11, _13, _6 = (1, 2), (1, 1), (1, 3), (3, 5), (3, 6), (5, 9), (5, 9)
+SHORTHAND_STEPS = {
+    "m": _MIN, "M": _MAJ, "": _MAJ, "dim": _DIM, "aug": _AUG, "+": _AUG,
+    "7#5": _AUG + [_b7], "M7+5": _AUG + [_b7], "m7+": _AUG + [_b7], "M7+": _AUG + [_M7], "7+": _AUG + [_M7],
+    "sus47": _SUS4 + [_b7], "7sus4": _SUS4 + [_b7], "sus4": _SUS4, "sus": _SUS4, "sus2": _SUS2,
+    "11": [(4, 7), _b7, _11], "add11": [(4, 7), _b7, _11],
+    "sus4b9": _SUS4 + [_b9], "susb9": _SUS4 + [_b9],
+    "m7": _MIN + [_m7], "M7": _MAJ + [_M7], "dom7": _MAJ + [_b7], "7": _MAJ + [_b7],
+    "m7b5": _DIM + [_m7], "dim7": _DIM + [(6, 9)], "m/M7": _MIN + [_M7], "mM7": _MIN + [_M7],
+    "m6": _MIN + [_6], "M6": _MAJ + [_6], "6": _MAJ + [_6],
+    "6/7": _MAJ + [_6, _b7], "67": _MAJ + [_6, _b7], "6/9": _MAJ + [_6, _9], "69": _MAJ + [_6, _9],
+    "9": _MAJ + [_b7, _9], "add9": _MAJ + [_b7, _9], "7b9": _MAJ + [_b7, _b9], "7#9": _MAJ + [_b7, _s9],
+    "M9": _MAJ + [_M7, _9], "m9": _MIN + [_m7, _9],
+    "7#11": _MAJ + [_b7, _s11], "m11": _MIN + [_m7, _11],
+    "M13": _MAJ + [_M7, _9, _13], "m13": _MIN + [_m7, _9, _13], "13": _MAJ + [_b7, _9, _13],
+    "add13": _MAJ + [_b7, _9, _13],
+    "7b5": [(2, 4), (4, 6), _b7], "hendrix": _MAJ + [_b7, (2, 3)], "7b12": _MAJ + [_b7, (2, 3)],
+    "5": [(4, 7)],
+}
+
+
+@primitive
+def chord_steps(sh):
+    return [tuple(x) for x in SHORTHAND_STEPS[sh]]
+
+
+@primitive
+def known_chord_shorthands():
+    return sorted(SHORTHAND_STEPS)
+
+
+def chord_matches(chord, root, steps):
+    """chord is root followed by one note per step, each on the step's letter at the step's semitone distance"""
+    return (len(chord) == 1 + len(steps) and chord[0] == root and
+            all([is_name(chord[i + 1]) and chord[i + 1][0] == lup(root[0], st[0])
+                 and pc(chord[i + 1]) == (pc(root) + st[1]) % 12 for i, st in enumerate(steps)]))
+
+
+@primitive
+def chord_of(root, sh):
+    """the chord the formula of shorthand sh prescribes on root, spelled canonically (nearest accidentals)"""
+    p0 = (base(root[0]) + root[1:].count("#") - root[1:].count("b")) % 12
+    n0 = root[1:].count("#") - root[1:].count("b")
+    out = [root]
+    for (d, s) in SHORTHAND_STEPS[sh]:
+        letter = lup(root[0], d)
+        # accidentals: exactly what makes the distance from the root s semitones
+        acc = s - ((base(letter) - base(root[0])) % 12) + n0
+        acc = fold6(acc) if abs(acc) > 6 else acc
+        out.append(letter + ("#" * acc if acc > 0 else "b" * (-acc)))
+    return out
+
+
+@primitive
+def chord_spec(s):
+    """independent reading of the chord-shorthand grammar: -> (kind, chord)
+    kind in 'ok' | 'NoteFormatError' | 'FormatError' | 'unspecified' (outside what the property covers)"""
+    if isinstance(s, list):
+        outs = [chord_spec(x) for x in s]
+        for k, v in outs:
+            if k != "ok":
+                return (k, None)
+        return ("ok", [v for k, v in outs])
+    if not isinstance(s, str) or s == "":
+        return ("unspecified", None)
+    if s in ("NC", "N.C."):
+        return ("ok", [])
+    s = s.replace("min", "m").replace("mi", "m").replace("-", "m").replace("maj", "M").replace("ma", "M")
+    if s[0] not in "ABCDEFG":
+        return ("NoteFormatError", None)
+    i = 1
+    while i < len(s) and s[i] in "#b":
+        i += 1
+    root, rest = s[:i], s[i:]
+    has_slash = "/" in rest and rest not in ("m/M7", "6/9", "6/7")
+    if "|" in rest:
+        j = rest.index("|")
+        if "/" in rest.replace("m/M7", "").replace("6/9", "").replace("6/7", ""):
+            return ("unspecified", None)
+        right = chord_spec(rest[j + 1:])
+        if right[0] != "ok":
+            return right
+        left = chord_spec(root + rest[:j])
+        if left[0] != "ok":
+            return left
+        if not right[1] or not isinstance(right[1], list):
+            return ("unspecified", None)
+        r = list(right[1])
+        for n in left[1]:
+            if n != r[-1]:
+                r.append(n)
+        return ("ok", r)
+    if has_slash:
+        j = rest.rindex("/")
+        body, bass = rest[:j], rest[j + 1:]
+        if "/" in body and body not in ("m/M7", "6/9", "6/7"):
+            return ("unspecified", None)
+        if bass == "":
+            return ("unspecified", None)
+        if body not in SHORTHAND_STEPS:
+            return ("FormatError", None)
+        if not (bass[0] in "ABCDEFG" and all(c in "#b" for c in bass[1:])):
+            return ("NoteFormatError", None)
+        return ("ok", [bass] + chord_of(root, body))
+    if rest not in SHORTHAND_STEPS:
+        return ("FormatError", None)
+    return ("ok", chord_of(root, rest))
